@@ -217,16 +217,45 @@ def replay(prop: str, path: str) -> int:
     payload = json.loads(open(path).read())
     rp = payload.get("replay") or {}
     rep = Report(prop, "quick")
-    if rp.get("kind") != "driverB" or rp.get("seed") is None:
-        raise MachineryError("replay file has no driver-B scenario")
+    kind = rp.get("kind")
     common.import_repo()
-    tr = driver_exec.run_one(rp["seed"], 0, rp["mode"])
-    mon, owners = validate([tr], rep, prop, nshards=1)
-    rep.traces, rep.evaluations, rep.nontrivial = mon.traces, mon.lines, 2
-    rep.rule = "replay of one recorded driver-B scenario"
-    rep.states, rep.transitions = max(mon.states, 1), max(mon.lines, 1)
-    rep.samples.append({"seed": rp["seed"], "mode": rp["mode"]})
-    print(f"replay: {len(mon.viols)} clause(s) fired, by owner {dict(owners)}")
-    for v in mon.viols[:10]:
-        print("  ", json.dumps(v)[:400])
+    if kind == "driverB" and rp.get("seed") is not None:
+        if (rp.get("mode") or "") == "long" or str((rp.get("trace") or [{}])[0].get("meta", {}).get("driver", "")).endswith("long"):
+            from . import driver_sched
+            tr = driver_sched.long_run(rp["seed"], 0)
+        else:
+            tr = driver_exec.run_one(rp["seed"], 0, rp["mode"])
+        mon, owners = validate([tr], rep, prop, nshards=1)
+        print(f"replay: {len(mon.viols)} clause(s) fired, by owner {dict(owners)}")
+        for v in mon.viols[:10]:
+            print("  ", json.dumps(v)[:400])
+    elif kind == "timing":
+        from . import driver_timing
+        from fractions import Fraction as F
+        c = rp["case"]
+        line = c if "obs" not in c else None
+        # the recorded case carries the inputs in the monitor's units: rebuild the container run from them
+        case = {"tps": c["tps"], "cpus": F(c["c2"], 2), "ram": F(c["ram"], 1000),
+                "ops": [[{"law": g["law"], "base": F(g["bnum"], g["bden"]), "read": F(g["read"], 1000), "fixed": None if g["fixed"] < 0 else F(g["fixed"], 1000)}
+                         for g in o["segs"]] for o in c["ops"]]}
+        files = common.write_shards([[driver_timing.run_case(case, 0)]], 1, "rt")
+        mon = common.run_monitor("TraceTiming", "TraceTiming.cfg", files)
+        for v in mon.viols:
+            print("  ", json.dumps(v)[:400])
+            rep.violation(v[2], v[3])
+    elif kind == "tlc-behaviour":
+        from . import replay_exec
+        steps = [(a, st) for a, st in rp["behaviour"]]
+        bad, n, how = replay_exec.replay_behaviour(steps, replay_exec.constants()[rp["config"]])
+        print(f"replay of a TLC behaviour ({n} transitions, ended: {how}): {len(bad)} mismatch(es)")
+        for clause, det in bad:
+            print("  ", clause, json.dumps(det)[:300])
+            rep.violation(clause, det)
+    elif kind in ("lifecycle", "dag"):
+        from . import lifecycle
+        (lifecycle.replay_lifecycle if kind == "lifecycle" else lifecycle.check_dag_iteration)(rep)
+        for v in rep.violations[:10]:
+            print("  ", v["clause"], json.dumps(v["detail"])[:300])
+    else:
+        raise MachineryError(f"replay file of unknown kind {kind!r}")
     return 1 if rep.violations else 0
